@@ -189,8 +189,8 @@ EXT = {
            "exactly once on completion, after the transport close, closed semantics, close() idempotent and returning at once from the close callback, no deadlock "
            "through _on_soup_close (lifted from C05_close_never_deadlocks), callers released; C05App_close_never_raises is full since /repo 4b4f253 (close() awaited from the application message callback is carried out by the "
            "dispatcher task itself: Model/AppSession closeOnD2; the former known finding is Witness/C05AppOld); one further defect found there and repaired (/repo 7eb8348). "
-           "Not proved: the link invariant that lets C05App_close_never_deadlocks be read as product-level progress when the dispatcher is the closer (checked by the "
-           "event-by-event correspondence only).",
+           "Props/C05AppLink: the link invariant (isCloser inner (U 0) -> astatus D2 = inSoup, every event list) and C05AppLink_close_progress: a started close "
+           "can always take its next step through an enabled product event, also when the dispatcher is the closer.",
     'C06': "Added: Props/C06App (second queue stopped, its dispatcher and helper done, blocked receive released with EndOfQueue, no application callback after close).",
     'C07': "Added: byte-level theorems for both readers over EVERY byte string (Props/C07Framing: a poll stops the reader, waits as announced or consumes a non-empty "
            "frame; the reader settles within len(buffer) polls; negative / zero / padded BodyLength included); Props/C07Bytes ties them to the session machine. The "
